@@ -1032,11 +1032,110 @@ def r13_9(ctx, counts: dict[str, int]) -> RuleResult:
     return res
 
 
+MATERIALISING = ('UnicodeSubset', 'list', 'tuple', 'sorted', 'set', 'frozenset')
+
+
+def r13_10(ctx, counts) -> RuleResult:
+    """a set operator consumes its iterable operand once"""
+    from ..engine.cfg import CFG, node_writes
+    from ..engine.dataflow import branch_facts
+    model = ctx.model
+    res = RuleResult(
+        'R13.10', 'OPERAND-CONSUMED-ONCE',
+        'The set operators of UnicodeSubset accept any iterable of code points as `other`, '
+        'including a one-shot iterator (a generator, map(ord, ..)). On every path of an operator '
+        'the operand as received is consumed at most once — iterated, or passed to a call or to '
+        'another operator — unless it has been re-bound to a materialised collection '
+        '(`other = UnicodeSubset(..)`, list(..), ..) or is known to be a UnicodeSubset or a str '
+        '(branch fact). A second use sees an exhausted iterator: `common = self & other; self |= '
+        'other; self -= common` computes self - other for an iterator operand.')
+    cls = [c for c in model.find_classes('UnicodeSubset')
+           if c.module.name == 'elementpath.regex.unicode_subsets']
+    if not cls:
+        raise AnalysisError('UnicodeSubset vanished')
+    n = 0
+    for name, m in sorted(cls[0].methods.items()):
+        params = m.params()
+        if len(params) != 2 or not name.startswith('__') or params[1] != 'other':
+            continue
+        n += 1
+        cfg = CFG(m.node)
+        facts = branch_facts(cfg)
+
+        def consuming(nd) -> int:
+            """uses of `other` in the node that consume an iterator"""
+            k = 0
+            for e in nd.exprs():
+                parent = {id(c): p_ for p_ in ast.walk(e) for c in ast.iter_child_nodes(p_)}
+                for y in ast.walk(e):
+                    if not (isinstance(y, ast.Name) and y.id == 'other'
+                            and isinstance(y.ctx, ast.Load)):
+                        continue
+                    p_ = parent.get(id(y))
+                    if isinstance(p_, ast.Call) and dotted(p_.func) in ('isinstance', 'cast',
+                                                                       'id', 'type') \
+                            and dotted(p_.func) != 'cast':
+                        continue
+                    if isinstance(p_, ast.Compare) and all(isinstance(o, (ast.Is, ast.IsNot))
+                                                           for o in p_.ops):
+                        continue
+                    k += 1
+            if nd.kind == 'for' and isinstance(nd.ast.iter, ast.Name) and nd.ast.iter.id == 'other':
+                k = max(k, 1)
+            return k
+
+        worst = 0
+        witness = None
+        seen: set = set()
+        stack = [(cfg.entry, 0, False, frozenset())]
+        while stack:
+            nd, cnt, mat, loops = stack.pop()
+            key = (nd.id, min(cnt, 2), mat, loops)
+            if key in seen:
+                continue
+            seen.add(key)
+            fs = facts.get(nd.id, ())
+            known = mat or any(fa in ('+isinstance(other, UnicodeSubset)', '+isinstance(other, str)',
+                                      '+other is self') for fa in fs)
+            use = 0 if known else consuming(nd)
+            if nd.kind == 'for':
+                # the header of a loop is visited once per iteration and consumes once
+                if nd.id in loops:
+                    use = 0
+                else:
+                    loops = loops | {nd.id}
+            cnt2 = cnt + use
+            if cnt2 > worst:
+                worst, witness = cnt2, nd
+            mat2 = mat
+            for t, v in node_writes(nd):
+                if t == 'other' and v is not None and not isinstance(v, ast.For):
+                    cnt2 = 0
+                    mat2 = isinstance(v, ast.Call) and dotted(v.func).split('.')[-1] in MATERIALISING
+            for lb, t in nd.succs:
+                if lb != 'exc':
+                    stack.append((t, cnt2, mat2, loops))
+        res.instances.append(f'{m.key}: the operand is consumed at most {worst} time(s) on a path')
+        if worst <= 1:
+            res.ok()
+        else:
+            res.fail(finding('R13.10', m, witness.ast if witness is not None else m.node,
+                             f'{name} consumes other {worst} times',
+                             f'{name} uses its operand `other` {worst} times on one path without '
+                             f'materialising it: a one-shot iterator operand is exhausted by the '
+                             f'first use and the later ones see nothing '
+                             f'(UnicodeSubset() ^ iter([..]) is empty)'))
+    counts['set_operators_with_iterable_operand'] = n
+    if n < 8:
+        raise AnalysisError(f'UnicodeSubset operators located: {n} < 8')
+    return res
+
+
 def run(ctx) -> dict:
     counts: dict[str, int] = {}
     results = [r13_1(ctx, counts), r13_2(ctx, counts), r13_3(ctx, counts), r13_4(ctx, counts),
                r13_6(ctx, counts), r13_7(ctx, counts), r13_8(ctx, counts),
-               r13_9(ctx, counts)]
+               r13_9(ctx, counts), r13_10(ctx, counts)]
     # the run-length builders of the category tables (fallback for Unicode versions without a
     # generated table, and the UnicodeData.txt loader) treat major and minor categories with
     # cloned blocks: the clones must be consistent
